@@ -520,6 +520,7 @@ def run(ctx):
     e10b(ctx)
     from . import c02
     c02.r02c3(ctx)    # a scalar distance of 0 for different texts prints one value without marks
+    c02.r02b(ctx)     # ... and so does a cost projection coarser than leaf equality (1 vs "1": unequal, cost 0, no marks)
     e9_json(ctx)
     e5d(ctx)
     ctx.assume("that the rendered text actually parses back to the two documents is a property of output values over all "
